@@ -32,6 +32,11 @@ CHECKS = {
     "C13": ("Schedule.tla: reference semantics Pre_X / Res_X of each public modification (whole next abstract state, hence frame "
             "conditions; relational for heuristics); TraceSched.tla checks every observed (pre, call, post) triple of the walks, "
             "refusals, returned ids, untouched input value", "6-C13"),
+    "C15": ("Transition.tla: the rotation bookkeeping WITH its caches as variables and the documented delta formulas; TLC checks "
+            "TransInv (partition, lookup, empty-cycle stack, every counter and total = recomputation) for all operation sequences "
+            "up to the bound (MC_Transition) and emits every explored state with a history; rsv trans replays them on the real "
+            "Transition; TraceTrans.tla requires the observed state to satisfy TransInv and to equal the model's prediction; "
+            "P_C15_opt on the pipeline: optimisation keeps the vehicles and never worsens (violation, counter)", "6-C15"),
     "C16": ("stage snapshots (cfg hooks) related by TracePipe.tla!P_C16_*: start=improve(mcf), transopt keeps ls tours, "
             "final carries transopt's cycles and ls's activities, answer = projection of final", "6-C16"),
     "C17": ("Net.tla!NetObsOK: every public Network getter (nodes, limits, depots, can_reach matrix, successors / "
@@ -42,7 +47,6 @@ NOT_YET = {
     "C08": "check under construction in this session (local-search trajectory validation)",
     "C11": "check under construction in this session (neighbourhood candidates)",
     "C14": "check under construction in this session (covering circulation)",
-    "C15": "check under construction in this session (rotation bookkeeping)",
     "C18": "check under construction in this session (HTTP service)",
 }
 
